@@ -275,6 +275,9 @@ LATE = {
            "with a client command sent the moment the command socket exists.",
     "C14": "Also: the target's own Content-Type spellings (event streams with sloppy parameters, near misses), decided by "
            "corr/C14corr.event_stream_of on the string.",
+    "C16": "Also: the ladder of model/Seq.v serve (HTTPS redirect, TLS refusal, then gate and balancer) is proved equal to "
+           "serviceRequestWithTarget / shouldRedirectToHTTPS as regenerated from service.go on every run (harness/gofacts, "
+           "coq/corr/GenTie.v.in: gen_service_ladder_is_serve).",
     "C15": "Also: clients that are gone when their error page is written (nothing of an undeliverable page may reach a later client); services "
            "with custom pages for some statuses only; the model's classification is proved equal to the if-chain of handleProxyError as "
            "regenerated from target.go on every run (harness/gofacts, coq/corr/GenTie.v.in: gen_handle_proxy_error_is_classify).",
